@@ -232,6 +232,9 @@ def _gen_random(tier: str, r: random.Random, max_n: int, max_len: int):
 def gen_cases(tier: str, seed: int):
     """Fixed families first; then the exhaustive enumeration and the random scripts take turns, so that a time budget trims
     both instead of starving the one that comes last."""
+    if tier == "thorough":
+        # the repository's own tests as one more workload, under the always-on invariants
+        yield {"kind": "repo_tests"}
     max_n, max_len = (3, 3) if tier == "quick" else (6, 4)
     yield from _gen_fixed(tier, random.Random(f"{seed}:C05:fixed"), max_n, max_len)
     its = [_gen_exhaustive(tier, random.Random(f"{seed}:C05"), max_n, max_len), _gen_random(tier, random.Random(f"{seed}:C05:random"), max_n, max_len)]
@@ -296,6 +299,8 @@ def _eq_rows(got: list, exp: list) -> bool:
 
 
 def run_case(case: dict, env: core.Env) -> None:
+    if case.get("kind") == "repo_tests":
+        return core.run_repo_tests_under_monitors(env, "C05/")
     conn = _state["conn"]
     n, pat, use_dict = case["n"], case["pat"], case["dict"]
     sql, names, rows = build_query(n, pat)
